@@ -140,3 +140,88 @@ Proof.
   vm_compute in B. inversion B; subst s1. clear B. vm_compute in D. inversion D; subst s2. clear D.
   vm_compute. reflexivity.
 Qed.
+
+(* ... and a node in ANY state - behind, ahead, diverged - that is sent a snapshot (it replaces its log and is applied over
+   whatever it holds): provided the primary can read every page of its database, the node ends with the primary's logical
+   database whatever it held before *)
+Theorem snapshot_over_anything sP sR0 sR : LatestEq sP -> lockpg sR0 = lockpg sP ->
+  (forall x, 1 <= x <= pageN sP -> x <> lockpg sP -> read_page sP x <> None) ->
+  op_receive sR0 (snapshot_file sP) = (Done, sR) -> SimW sP sR.
+Proof.
+  intros HL Hlk Hall H. set (f := snapshot_file sP) in *. unfold op_receive in H.
+  assert (is_snapshot f = true) as Hs by reflexivity. rewrite Hs in H. cbn [negb andb] in H.
+  destruct (apply_done _ f true sR H) as [At [Ac [Ap _]]]. pose proof (apply_lockpg _ f true sR H) as Al. cbn [lockpg with_dir] in Al.
+  cbn [l_max l_post l_commit f snapshot_file] in At, Ac, Ap.
+  constructor; try congruence.
+  intros x Hx Hnl.
+  assert (Hwf : wf_ltx f).
+  { split; cbn [l_pages f snapshot_file].
+    - intros p q Hin. assert (In p (map fst (snap_pages sP 1 (N.to_nat (pageN sP))))) as Hk by (apply in_map_iff; exists (p, q); auto).
+      apply snap_keys_range in Hk. lia.
+    - apply snap_keys_nodup. }
+  assert (l_commit f <> 0) as Hc0 by (cbn [l_commit f snapshot_file]; lia).
+  rewrite (apply_fpg _ f true sR H Hwf Hc0 x ltac:(cbn [l_commit f snapshot_file]; exact Hx)).
+  cbn [l_pages f snapshot_file]. rewrite snap_lookup.
+  destruct (N.leb_spec 1 x); [|lia]. destruct (N.ltb_spec x (1 + N.of_nat (N.to_nat (pageN sP)))); [|lia].
+  destruct (N.eqb_spec x (lockpg sP)); [contradiction|]. cbn [andb negb].
+  rewrite <- (read_page_lpage sP HL x). specialize (Hall x Hx Hnl). destruct (read_page sP x); [reflexivity|contradiction].
+Qed.
+
+Theorem resnapshot_history lock hs zf acts c os s1 s2 s' v' sR0 sR :
+  1 <= lock -> wf_hist (init lock) hs -> run_hsteps (init lock) hs = Some s1 ->
+  wf_tx_any s1 zf acts -> run_group s1 (hops s1 (HTx zf acts c)) = (0, s2) -> wal_mode s2 = true ->
+  wf_wops2 s2 os -> run_wops2 s2 (file_h s2) os = Some (s', v') ->
+  lockpg sR0 = lock -> (forall x, 1 <= x <= pageN s' -> x <> lock -> read_page s' x <> None) ->
+  op_receive sR0 (snapshot_file s') = (Done, sR) ->
+  txid sR = txid s' /\ chk sR = chk s' /\ pageN sR = pageN s' /\
+  (forall p, 1 <= p <= pageN s' -> p <> lock -> fpg sR p = lpage s' p).
+Proof.
+  intros Hl Hwf H1 Hsw H2 Hm Hww H3 Hlk Hall HR.
+  destruct (journal_history_invariant hs (init lock) s1 (j_init lock Hl) Hwf H1) as [HJ El1].
+  change (lockpg (init lock)) with lock in El1.
+  pose proof (run_hsteps_wal_file hs (init lock) s1 H1) as Hf1. change (wal_file (init lock)) with (@nil (N * pg * N)) in Hf1.
+  pose proof (run_group_wal_file _ s1 s2 (hops_jops s1 (HTx zf acts c)) H2) as Hf2. rewrite Hf1 in Hf2.
+  pose proof (run_hsteps_latest hs (init lock) s1 H1) as Hl1. change (wal_latest (init lock)) with (@nil (N * pg)) in Hl1.
+  pose proof (run_group_latest _ s1 s2 (hops_jops s1 (HTx zf acts c)) H2) as Hl2. rewrite Hl1 in Hl2.
+  destruct (tx_step_any s1 zf acts c s2 HJ Hsw H2 Hm) as [HB [Hk [Et [_ El2]]]].
+  assert (WL s2 (file_h s2)) as HW by (apply wl_entry; [assumption|assumption|assumption|lia]).
+  pose proof (wk_entry s2 HB Hf2 Hk) as HK.
+  assert (LatestEq s2) as HL2 by (intros p; rewrite Hl2, (wpages_nil_of_file s2 Hf2); reflexivity).
+  destruct (latest_history_invariant os s2 (file_h s2) s' v' HW HK HL2 Hww H3) as [_ [_ [HL' El']]].
+  assert (lockpg s' = lock) as El by congruence.
+  destruct (snapshot_over_anything s' sR0 sR HL' ltac:(congruence) ltac:(rewrite El; exact Hall) HR) as [A B C D E].
+  rewrite El in E. auto.
+Qed.
+
+(* a concrete case (the non-vacuity example of Props/C01.v): the node that is sent the snapshot holds an older database - the
+   primary's state before it switched to WAL mode *)
+Lemma resnapshot_example :
+  let pg h := mkPg (fl h) 0 false in
+  let pw h := mkPg (fl h) 0 true in
+  let hs := [HTx [] [AWrite 1 (pg 11); AWrite 2 (pg 12)] 2] in
+  let sw := [AWrite 1 (pw 13)] in
+  let os := [W2Commit [(2, pw 22); (3, pw 33); (2, pw 23)] 3; W2BackfillOld 2 (pw 22); W2Commit [(1, pw 14)] 2; W2Checkpoint;
+             W2Commit [(3, pw 35); (1, pw 15)] 3] in
+  exists s1 s2,
+    wf_hist (init 2097153) hs /\ run_hsteps (init 2097153) hs = Some s1 /\
+    wf_tx_any s1 [] sw /\ run_group s1 (hops s1 (HTx [] sw 2)) = (0, s2) /\ wal_mode s2 = true /\
+    wf_wops2 s2 os /\
+    match run_wops2 s2 (file_h s2) os with
+    | Some (s', v') =>
+        (forall x, 1 <= x <= pageN s' -> x <> 2097153 -> read_page s' x <> None) /\
+        match op_receive s1 (snapshot_file s') with
+        | (Done, sR) => (txid s1, txid sR, pageN sR, chk sR =? chk s', map (fpg sR) [1; 2; 3], length (ltxdir sR))
+                        = (1, 5, 3, true, [pw 15; pw 23; pw 35], 1%nat)
+        | _ => False
+        end
+    | None => False
+    end.
+Proof.
+  cbn zeta. destruct export_example as [s1 [s2 [A [B [C [D [E [F _]]]]]]]].
+  exists s1, s2. repeat (split; [assumption|]).
+  revert B D. cbn zeta. intros B D.
+  vm_compute in B. inversion B; subst s1. clear B. vm_compute in D. inversion D; subst s2. clear D.
+  match goal with |- match ?r with _ => _ end => let r' := eval vm_compute in r in change r with r' end.
+  cbv beta iota. split; [|vm_compute; reflexivity].
+  cbn [pageN]. intros x Hx _. assert (x = 1 \/ x = 2 \/ x = 3) as [->|[->| ->]] by lia; vm_compute; discriminate.
+Qed.
